@@ -32,6 +32,16 @@ PROPS['C13'] = dict(
     level_note='Assumed: _can_dedup/_should_prepend are pure functions of the argument (definitional abstraction can/prep); os.path.isabs uninterpreted; the compiler object opaque. Lemma L13 (view commutes with the statement-level eager meaning) is checked bounded-exhaustively, not proved. __len__, __eq__, __radd__ and extend_preserving_lflags are outside the contracts.',
     not_decided=['__len__ (counts pending duplicates), __eq__ (does not flush the other operand), __radd__', 'CLikeCompilerArgs.to_native group insertion and -isystem filtering'],
 )
+PROPS['C18'] = dict(
+    modules=['specs.tap', 'contracts.tap'],
+    bounded=['bounded.tap'],
+    level='proof',
+    design_ref='DESIGN.md §4 C18',
+    technique='deductive: VCs from the real AST of TAPParser.parse_line / parse_test (abstract regex matches, path enumeration) against clause-wise postconditions from TAP 12/13; line recognisers and whole streams bounded',
+    level_text='parse_line is loop-free: every feasible path of the real function (per entry-state case) is executed symbolically and each clause of the TAP rules (one subtest per test line with number/name/status, plan and count errors, late plan, second plan, YAML handling, version line, bail-out, duplicate/missing numbers at the end, never raising) is an SMT obligation on that path.',
+    level_note='Assumed: the seven regular expressions recognise their line forms (abstract match/group functions; group languages taken from the sub-patterns; checked bounded against an independent recogniser on whole streams); str.rstrip/strip/upper uninterpreted; len(set) uninterpreted.',
+    not_decided=['TestRunTAP verdict fold is checked bounded only'],
+)
 
 # properties with no check yet or outside the technique, each with the reason
 NOT_APPLICABLE = {
